@@ -48,6 +48,10 @@ Theorem C11_respawn_child_refuted : exists s, run init witness_respawn_child = S
   quiet (s 0) = true /\ cnt (s 0) = 0%Z.
 Proof. exact respawn_child_refuted. Qed.
 
+(* the driver-level function the tie evaluates only takes steps of the small-step system *)
+Theorem C11_driver_within_model : forall kids k d a, reach (d_s d) -> reach (d_s (fst (drive kids k d a))).
+Proof. exact drive_reach. Qed.
+
 Print Assumptions C11_same_flight_same_result.
 Print Assumptions C11_counter_share.
 Print Assumptions C11_at_most_one_running_partial.
@@ -56,3 +60,4 @@ Print Assumptions C11_num_actors_partial.
 Print Assumptions C11_counter_at_quiescence_partial.
 Print Assumptions C11_respawn_refuted.
 Print Assumptions C11_respawn_child_refuted.
+Print Assumptions C11_driver_within_model.
